@@ -133,6 +133,11 @@ func main() {
 	}
 	defer func() {
 		if r := recover(); r != nil {
+			if len(verif.Failed) > 0 {
+				// an assertion had already failed before the run went off the recorded path
+				fmt.Println(verif.Report())
+				return
+			}
 			if _, ok := r.(verif.AssumeViolated); ok {
 				fmt.Println("REPLAY-ASSUME-VIOLATED")
 				return
@@ -156,12 +161,20 @@ func main() {
 	for virt, content := range ov {
 		put(virt, content)
 	}
-	put(filepath.Join(repoDir, "zzverif", "replaymain", "main.go"), []byte(sb.String()))
+	// Go's internal-package rule: the replay main must live below the parent of
+	// any ".../internal" package it imports
+	mainRel := filepath.Join("zzverif", "replaymain")
+	for _, e := range entries {
+		if i := strings.Index(e.Pkg+"/", "/internal/"); i >= 0 {
+			mainRel = filepath.Join(e.Pkg[:i], "zzreplaymain")
+		}
+	}
+	put(filepath.Join(repoDir, mainRel, "main.go"), []byte(sb.String()))
 	b, _ := json.Marshal(ovj)
 	r.ovPath = filepath.Join(dir, "overlay.json")
 	os.WriteFile(r.ovPath, b, 0o644)
 	r.bin = filepath.Join(dir, "replay")
-	cmd := exec.Command("go", "build", "-overlay", r.ovPath, "-o", r.bin, "./zzverif/replaymain")
+	cmd := exec.Command("go", "build", "-overlay", r.ovPath, "-o", r.bin, "./"+mainRel)
 	cmd.Dir = repoDir
 	cmd.Env = append(os.Environ(), goEnv()...)
 	out, err := cmd.CombinedOutput()
